@@ -390,6 +390,24 @@ func (p *Pool) Call(in []byte) PoolResp {
 	return <-out
 }
 
+// CallBefore is Call for work under a wall-clock budget: if no worker has taken the request
+// by the deadline it is not run at all (ok=false). A request a worker has taken runs to its end.
+func (p *Pool) CallBefore(deadline time.Time, in []byte) (resp PoolResp, ok bool) {
+	d := time.Until(deadline)
+	if d <= 0 {
+		return PoolResp{}, false
+	}
+	out := make(chan PoolResp, 1)
+	t := time.NewTimer(d)
+	defer t.Stop()
+	select {
+	case p.reqs <- poolReq{in, out}:
+		return <-out, true
+	case <-t.C:
+		return PoolResp{}, false
+	}
+}
+
 func (p *Pool) Close() { close(p.reqs); p.wg.Wait() }
 
 // Serve is the worker side: handle is called for every request line.
